@@ -785,7 +785,7 @@ func (r *runner) cont(seed uint64, n int) string {
 	}
 	w := newWorkload(r.cur, seed, "b")
 	w.run(n)
-	r.ops2 = append(r.ops2, r.cur.fs.takeTrace()...)
+	r.ops2 = append(append([]op{}, r.ops2...), r.cur.fs.takeTrace()...)
 	if r.cur.fs.bad != "" {
 		return "fs-anomaly:" + r.cur.fs.bad
 	}
